@@ -45,7 +45,7 @@ from ufl.sobolevspace import H1, HCurl, HDiv, HDivDiv, HEin, L2
 from ufv import elements as E
 from ufv import num as N
 from ufv import sigforms as S
-from ufv.core import bounded_ok, proved, undecided, violated
+from ufv.core import bounded_ok, crash_text, deliberate, proved, undecided, violated
 from ufv.den import World, den, leibniz_det, _cofactor
 from ufv.geom import TDIM, CellModel
 from ufv.smt import prove_equal
@@ -607,6 +607,8 @@ def build(run):
                 try:
                     fd = compute_form_data(form, **opts)
                 except (ValueError, NotImplementedError, RuntimeError, TypeError, KeyError) as ex:
+                    if not deliberate(ex):
+                        return violated(f"crash instead of a result or a refusal: {crash_text(ex)}", reproduced=True, backend="exec")
                     return proved("refused", sample=f"compute_form_data raised {type(ex).__name__}: {str(ex)[:120]}")
                 except BaseException as ex:  # noqa: BLE001
                     if isinstance(ex, (KeyboardInterrupt, SystemExit)):
